@@ -18,7 +18,7 @@ RULE = ("every aggregate of C03/C18 on both cube types x every argument form (Na
         "under False / int64; weights none / scalar / array / pair): every argument buffer (fact values incl. those hidden "
         "under a False validity, validity, weights, dimension arrays, index entries) byte-compared before and after "
         "construction + calculate, results checked not to share memory with arguments; calculate(list)[i] == "
-        "calculate([list[i]])[0] for all permutations of <=3 aggregates, a repeated calculate with the same objects, the "
+        "calculate([list[i]])[0] for all permutations of <=3 aggregates and for lists naming one function object twice, a repeated calculate with the same objects, the "
         "same aggregate-function object re-used on another cube; non-mutating index methods leave receiver and arguments "
         "byte-identical. Non-trivial = an argument with missing positions; distinct by (case, aggregate, form)")
 ASSUMPTIONS = ["global interpreter state (warnings filters, tracing dictionaries) is observed only through results"]
@@ -144,6 +144,22 @@ def check(ctx, case):
                             ctx.oracle_fail("%s: %s computed together with %s differs from %s computed alone" % (
                                 kind, n, [m for m, _ in perm if m != n], n), A.small_desc(case, {"cube": kind, "order": [m for m, _ in perm]}),
                                 cls="C17-together")
+                # a list that names the same function object more than once: every position is still that aggregate
+                for lst in ([trio[0], trio[1], trio[0]], [trio[0], trio[0]], [trio[1], trio[0], trio[0], trio[1]]):
+                    ctx.evaluations += 1
+                    ctx.hit("together_repeated_object")
+                    try:
+                        tog = mk().calculate([f for _, f in lst])
+                    except Exception as e:
+                        ctx.oracle_fail("%s: calculate of %s (one object listed twice) raised %s" % (kind, [n for n, _ in lst], type(e).__name__),
+                                        A.small_desc(case, {"cube": kind}), cls="C17-together")
+                        continue
+                    for pos, ((n, _), r) in enumerate(zip(lst, tog)):
+                        if not same([r], [alone[n]]):
+                            ctx.oracle_fail("%s: position %d of calculate(%s) - the same function object listed more than once - "
+                                            "differs from %s computed alone" % (kind, pos, [m for m, _ in lst], n),
+                                            A.small_desc(case, {"cube": kind, "order": [m for m, _ in lst]}), cls="C17-together")
+                            break
 
 
 def index_methods(ctx):
